@@ -1,13 +1,16 @@
 """C13 - prayer times vary smoothly from day to day (partial: the wrap clause only)."""
 from . import conv as CV
 from . import modular
+from . import julian
 
 
 def run(ctx, rep):
     rep.explanation = (
         'Decides only "no wrap-induced jumps": modular-angle hygiene R1.2 - every quantity that exists modulo 360 deg is consumed '
         'under a normaliser of compatible period, alone as a canonical representative, or in day-to-day differences that are made '
-        'continuous for every position of the 360->0 seam. The second-difference / 4-minute bounds and the Gregorian calendar '
-        'arithmetic of the Julian Day are numeric: not decided.')
+        'continuous for every position of the 360->0 seam. Of the Julian Day arithmetic one structural clause is decided (R13.2: the '
+        'Gregorian century correction and the day count use the same shifted year). The second-difference / 4-minute bounds are '
+        'numeric: not decided.')
     rep.trusted = ['rustc MIR', 'the compared angle moves < 1.2 deg/day']
     modular.check(ctx, rep, CV.get(ctx))
+    julian.check(ctx, rep, 'R13.2')
